@@ -33,7 +33,20 @@ func VerifH_C10_transform_total() {
 
 // Escape values, and the rule that unsupported constructs are flagged.
 func VerifH_C10_transform_escapes() {
-	switch verifChoose(9) {
+	switch verifChoose(11) {
+	case 9: // a class inside a group may contain any punctuator, also ( and )
+		b := verifNondetString(1)
+		verifAssume(b[0] >= 0x20 && b[0] < 0x7f && b[0] != ']' && b[0] != '\\' && b[0] != '^' && b[0] != '[')
+		out, err := TransformRegExp("(a[" + b + "]b)+")
+		verifAssert(err == nil && out == "(a["+b+"]b)+", "a character class nested in a group is copied through, whatever single character it holds")
+		out2, err2 := TransformRegExp("(?:[" + b + "])|((x)[" + b + "])")
+		verifAssert(err2 == nil && out2 == "(?:["+b+"])|((x)["+b+"])", "classes inside non-capturing and nested groups")
+	case 10: // ordinary characters and quantifiers pass through unchanged
+		b := verifNondetString(1)
+		verifAssume('a' <= b[0] && b[0] <= 'z' || 'A' <= b[0] && b[0] <= 'Z' || '0' <= b[0] && b[0] <= '9' || b[0] == ' ' || b[0] == '-' || b[0] == ',')
+		q := []string{"", "*", "+", "?", "{2}", "{1,3}", "*?", "+?"}[verifChoose(8)]
+		out, err := TransformRegExp("^" + b + q + "|(" + b + ")$")
+		verifAssert(err == nil && out == "^"+b+q+"|("+b+")$", "literals, quantifiers, anchors, alternation and groups are copied through")
 	case 0: // \xHH
 		h := verifNondetString(2)
 		verifAssume(verifIsHex(h[0]) && verifIsHex(h[1]))
